@@ -67,6 +67,17 @@ pub broadcast proof fn ax_ceil(x: real)
     ensures #[trigger] ceil_r(x) >= x, x > ceil_r(x) - 1real,
             exists|i: int| ceil_r(x) == i2r(i) {}
 
+/// 0 < x < 1, integer n >= 1  ==>  0 < x^n < 1
+#[verifier::external_body]
+pub broadcast proof fn ax_pow_frac_int(x: real, n: int)
+    requires 0real < x, x < 1real, n >= 1
+    ensures 0real < #[trigger] pow_r(x, i2r(n)), pow_r(x, i2r(n)) < 1real {}
+/// x >= 1, y <= 0  ==>  0 < x^y <= 1
+#[verifier::external_body]
+pub broadcast proof fn ax_pow_ge1_nonpos(x: real, y: real)
+    requires x >= 1real, y <= 0real
+    ensures 0real < #[trigger] pow_r(x, y), pow_r(x, y) <= 1real {}
+
 pub broadcast group group_real_axioms {
     ax_exp_pos, ax_exp_mono, ax_exp_zero, ax_ln_exp, ax_exp_ln, ax_sqrt,
 }
@@ -75,7 +86,10 @@ impl F {
     pub open spec fn r(self) -> real { self.v@ }
     pub fn lit(x: Ghost<real>) -> (o: F) ensures o.r() == x@ { F { v: x } }
     /// float literal inside a std macro (assert!), where `Ghost(..real)` syntax is unavailable: n/d
-    pub fn frac(n: u64, d: u64) -> (o: F) requires d > 0 ensures o.r() == i2r(n as int) / i2r(d as int) { F { v: Ghost(i2r(n as int) / i2r(d as int)) } }
+    pub fn frac(n: u64, d: u64) -> (o: F) requires d > 0 ensures o.r() == i2r(n as int) / i2r(d as int), d == 1 ==> o.r() == i2r(n as int) {
+        proof { assert(i2r(n as int) / 1real == i2r(n as int)) by(nonlinear_arith); }
+        F { v: Ghost(i2r(n as int) / i2r(d as int)) }
+    }
     pub fn exp(self) -> (o: F) ensures o.r() == exp_r(self.r()) { F { v: Ghost(exp_r(self.r())) } }
     pub fn ln(self) -> (o: F) ensures o.r() == ln_r(self.r()) { F { v: Ghost(ln_r(self.r())) } }
     pub fn ln_1p(self) -> (o: F) ensures o.r() == ln_r(1real + self.r()) { F { v: Ghost(ln_r(1real + self.r())) } }
